@@ -32,7 +32,7 @@ ASSUMPTIONS = [
     'with an FCS negotiated, SDUs are kept small enough for payload + FCS to fit the 16-bit L2CAP length field',
 ]
 MIN_EVENTS = {
-    'quick': {'sdu_checks': 200, 'wire_iframes': 3000, 'setup_checks': 150, 'fcs_checked': 500, 'seq_wraps': 5},
+    'quick': {'sdu_checks': 900, 'wire_iframes': 20000, 'setup_checks': 800, 'fcs_checked': 15000, 'seq_wraps': 100},
     'thorough': {'sdu_checks': 4000, 'wire_iframes': 100000, 'setup_checks': 3000, 'fcs_checked': 10000, 'seq_wraps': 100},
 }
 CASE_TIMEOUT = 300
@@ -41,7 +41,7 @@ PSM = 0x1001
 
 
 def plan(tier, seed):
-    n = 200 if tier == 'quick' else 4000
+    n = 900 if tier == 'quick' else 6000
     return [{'kind': 'xfer', 'seed': seed * 1000003 + i, 'tier': tier} for i in range(n)]
 
 
